@@ -11,3 +11,4 @@ import FP.Props.C20
 #print axioms FP.Props.C20.upsert_others_unchanged
 #print axioms FP.Props.C20.upsert_has_value
 #print axioms FP.Props.C20.appendInto_keeps
+#print axioms FP.Props.C20.every_constant_names_its_type
